@@ -12,6 +12,7 @@ SMILES_POOL = [
     'C[CH2]', 'C[O]', '[H]C([H])([H])O', '[2H]C(Cl)(F)Br', '[13CH4]', 'Cl[Fe]Cl', 'N[Cu]N', 'CCN.CCO', 'C.C.C',
     'OC(=O)C(O)=O', 'CC#CC', 'C(=O)=O', 'N#N', 'S=C=S', '[Fe+3]', '[O-2]', '[Ti+4]', '[C-4]', '[Si-4]', '[U+4]', '[Pt+2]',
     'ClC(Cl)Cl', 'BrCCBr', 'FC(F)(F)F', 'CSSC', 'C[S-]', '[NH3+]CC([O-])=O', 'O', 'N', '[OH-]', '[H+]', '[He]', '[18OH2]',
+    '[13CH3][13CH2][18OH]', '[2H]C([2H])([2H])O', '[13CH3][15NH2]', '[13CH3]C(=[18O])[18OH]', '[14CH3][13CH2][15NH3+]', '[11B](O)O', '[37Cl][13CH2][37Cl]',
     'CC(C)CC1=CC=C(C=C1)C(C)C(O)=O', 'CN1C=NC2=C1C(=O)N(C)C(=O)N2C', 'OC1=CC=CC=C1', 'C1CCOC1', 'C1COCCO1',
 ]
 FILES = ['isomorphism.sdf', 'peptide.sdf', 'mcs.sdf', 'standardize.sdf', 'arenes.sdf', 'cycle.sdf', 'hbonds.sdf',
